@@ -129,6 +129,22 @@ pub fn emphasised(seed: u64, idx: usize) -> (Vec<u8>, &'static str) {
             _ => (format!("\"\u{71d}\" = \"{}\"\n", "\u{71d}".repeat(d)).into_bytes(), "text_reading_as_deep_msgpack"),
         };
     }
+    if idx % 50 == 48 {
+        // a document of each text format behind a long run of insignificant white space (JSON: space, tab,
+        // CR, LF; YAML / TOML: blank lines), around the sizes of read buffers
+        let n = *rng.pick(&[1000usize, 4095, 4096, 4097, 8191, 8192, 8193, 16384, 65536, 70001]);
+        let ws: String = match rng.below(3) {
+            0 => " ".repeat(n),
+            1 => "\n".repeat(n),
+            _ => (0..n).map(|_| *rng.pick(&[' ', '\t', '\r', '\n'])).collect(),
+        };
+        return match rng.below(4) {
+            0 => (format!("{ws}{{\"k\": [1, 2]}}\n").into_bytes(), "json_behind_long_white_space"),
+            1 => (format!("{ws}[\"a\", null]").into_bytes(), "json_behind_long_white_space"),
+            2 => (format!("{}k: [1, 2]\n", "\n".repeat(n)).into_bytes(), "yaml_or_toml_behind_blank_lines"),
+            _ => (format!("{}k = [1, 2]\n", "\n".repeat(n)).into_bytes(), "yaml_or_toml_behind_blank_lines"),
+        };
+    }
     match idx % 7 {
         6 => {
             // xt's own TOML output for documents with detection-hostile first keys
@@ -437,13 +453,24 @@ pub fn run(ctx: &Ctx) -> i32 {
             big.push_str("]\n");
         }
         big.truncate(big.rfind('[').unwrap());
-        let b = big.into_bytes();
-        acc.count("class_just_under_2mib");
-        transparency(&b, &Mode::Slice, Fmt::Json, "just_under_2mib", &mut acc);
-        transparency(&b, &Mode::Reader(Sched::Fixed(65536)), Fmt::Json, "just_under_2mib", &mut acc);
+        // the same document cut down to a little over 2 000 000 bytes, and to half of it
+        let cut_at = |n: usize| -> Vec<u8> {
+            let t = &big[..n];
+            t[..t.rfind("\n[").unwrap() + 1].as_bytes().to_vec()
+        };
+        for b in [big.clone().into_bytes(), cut_at(2_050_000), cut_at(1_000_000)] {
+            acc.count("class_just_under_2mib");
+            let (ds, ok_s) = transparency(&b, &Mode::Slice, Fmt::Json, "just_under_2mib", &mut acc);
+            for m in [Mode::Reader(Sched::Fixed(65536)), Mode::Reader(Sched::All)] {
+                let (dr, ok_r) = transparency(&b, &m, Fmt::Json, "just_under_2mib", &mut acc);
+                if (ok_s || ok_r) && ds != dr {
+                    acc.violation(Violation { sig: format!("slice detects {} but reader detects {} (input of {} bytes)", ds.map(|f| f.name()).unwrap_or("none"), dr.map(|f| f.name()).unwrap_or("none"), if b.len() > 2_000_000 { "2 000 000 .. 2 MiB" } else { "1 000 000" }), case: case_json(&b, &m, Fmt::Json, "just_under_2mib"), observed: format!("a TOML document of {} bytes translates successfully under detection; slice detected as {:?}, {} as {:?}", b.len(), ds.map(|f| f.name()), m.describe(), dr.map(|f| f.name())), expected: "the same format from a slice and from a reader".into() });
+                }
+            }
+        }
     }
     handle_programs(ctx, &mut acc);
-    let rule = format!("(a,b) {} mixed corpus inputs + {} inputs aimed at the detection trials (MessagePack collection markers followed by every kind of truncation, text starting with U+0700-U+07FF and other two-byte characters, inputs several formats accept, truncated seeds, two inputs just under 2 MiB), each as a slice and under 4 read schedules, rotating target; (d) EVERY program of up to {} tokens over {{new borrow, read(n), prefix(n) : n in 0..=len+1}} x every data size 0..=6 x EVERY chunking of the source x both ways of taking ownership, plus the same programs on slice handles; distinct non-trivial = distinct inputs plus distinct programs of >= 2 tokens on >= 2 bytes", n_mixed, n_emph, if ctx.thorough() { 5 } else { 3 });
+    let rule = format!("(a,b) {} mixed corpus inputs + {} inputs aimed at the detection trials (MessagePack collection markers followed by every kind of truncation, text starting with U+0700-U+07FF and other two-byte characters, inputs several formats accept, truncated seeds, JSON / YAML / TOML behind 1000..70001 bytes of white space, TOML documents of 1 000 000, 2 050 000 and just under 2 MiB bytes), each as a slice and under 4 read schedules, rotating target; (d) EVERY program of up to {} tokens over {{new borrow, read(n), prefix(n) : n in 0..=len+1}} x every data size 0..=6 x EVERY chunking of the source x both ways of taking ownership, plus the same programs on slice handles; distinct non-trivial = distinct inputs plus distinct programs of >= 2 tokens on >= 2 bytes", n_mixed, n_emph, if ctx.thorough() { 5 } else { 3 });
     let mut extra = serde_json::Map::new();
     extra.insert("handle_programs_exhaustive_up_to_tokens".into(), json!(if ctx.thorough() { 5 } else { 3 }));
     ev::finish(
